@@ -469,6 +469,28 @@ def generate(tier, rng):
         yield c
 
 
+def check(tier, seed, replay=None):
+    """The standard flow; a harness process that was terminated from outside (SIGTERM: `(abort -15)`, seen when other
+    checks' process clean-up hits our mvh children) says nothing about mech, so those cases are run once more."""
+    import types
+    from vlib import core, flow
+    plugin = types.SimpleNamespace(**{k: v for k, v in globals().items() if not k.startswith("__") and k != "check"})
+    orig = core.run_impl
+
+    def run_impl_retry(mode, cases, **kw):
+        res = orig(mode, cases, **kw)
+        again = [c for c in cases if res.get(c["id"], "(missing)") in ("(abort -15)", "(missing)")]
+        if again:
+            res.update(orig(mode, again, **kw))
+        return res
+
+    core.run_impl = run_impl_retry
+    try:
+        return flow.standard_check(plugin, tier, seed, replay)
+    finally:
+        core.run_impl = orig
+
+
 def shrink(case):
     """drop one written element of an operand (same construction, same operator)"""
     import random
